@@ -19,9 +19,9 @@ ANCHORS = [(_U, "CiscoIOSInterface.parse_single_interface"), (_U, "CiscoIOSInter
            (_U, "CiscoRange.__init__"), (_U, "CiscoRange.parse_cisco_interfaces"), (_U, "CiscoRange.attribute_sort"),
            (_U, "CiscoRange.as_list"), (_U, "CiscoRange.as_set"), (_U, "CiscoRange.__len__"), (_U, "CiscoRange.__iter__")]
 RULE = ("six streams. parse: arbitrary strings (grammar names, their one-edit neighbourhood over '/.:-^_, aZ09\\t', leading zeros, every string "
-        "over a 10-symbol alphabet up to length 4 (5 in the thorough tier)) -> as_dict, str, the re-parse of str, ==, hash against the model; "
+        "over an 8-symbol alphabet up to length 4 (length 5, plus a 10-symbol alphabet up to length 4, in the thorough tier)) -> as_dict, str, the re-parse of str, ==, hash against the model; "
         "name_spec: grammar names (prefix x optional blank x 1..3 numbers x .sub x :chan x class word) -> the generator's components and the "
-        "canonical text, re-parse equal; order: pairs (<, >, ==, __hash__); sorted: same-shape lists; range: arbitrary range texts x random "
+        "canonical text, re-parse equal; order: pairs (<, >, ==, equal objects hash equally); sorted: same-shape lists; range: arbitrary range texts x random "
         "sequences of read accessors (len, iteration, as_list, as_set) against the model; range_spec: grammar ranges -> the base interface "
         "with the iterated component replaced by each listed value, once, ascending. non-trivial = a successful parse (distinct by shape and "
         "whether the text was already canonical), a pair whose numeric and lexical orders differ, an expansion with >= 2 parts.")
@@ -116,7 +116,8 @@ def _obs(s):
 
 
 def _small(d):
-    return all(d[k] is None or d[k] <= 64 for k in ("slot", "card", "port", "subinterface", "channel"))
+    """__hash__ is 3**port + ...: only evaluated for moderate numbers"""
+    return all(d[k] is None or d[k] <= 20000 for k in ("slot", "card", "port", "subinterface", "channel"))
 
 
 PRE = ("From Coq Require Import NArith List Bool. Import ListNotations. "
@@ -126,6 +127,7 @@ PRE = ("From Coq Require Import NArith List Bool. Import ListNotations. "
 # ------------------------------------------------------------------ stream parse
 EDIT = "/.:-^_, aZ09\t"
 ALPHA = ["E", "t", "1", "0", "/", ".", ":", " ", "-", "^"]
+ALPHA_Q = ["E", "1", "0", "/", ".", ":", " ", "-"]
 
 
 def gen_parse(rng, tier, escalate):
@@ -169,10 +171,17 @@ def gen_parse(rng, tier, escalate):
               "Eth1//2", "Eth1/2/3/4", "Eth1/2/", "Eth1/", "Eth/1", "Eth1:2/3", "Eth1.2/3", "Eth1/2:3.4", "Eth1.2.3", "Eth1:2:3", "Eth1 2", "Eth1/2 3",
               "Eth1/2 x9", "Eth1 9x", "Eth1/2 -", "Eth1/2 a-b", "Eth1,2", "Eth1/2  foo", "Eth 1/2", "Eth1/2 x", "Eth1_2", "Eth1/2;", "Eth1|2", "Eth1\\2", "Eth1/2 é"]:
         add(s, "hand")
-    n = 5 if big else 4
-    for k in range(1, n + 1):
-        for t in itertools.product(ALPHA, repeat=k):
+    # exhaustive: every string over the 8-symbol alphabet up to length 4 (quick) / 5 (thorough);
+    # thorough adds every string over the 10-symbol alphabet up to length 4
+    for k in range(1, (5 if big else 4) + 1):
+        for t in itertools.product(ALPHA_Q, repeat=k):
             add("".join(t), "exhaustive")
+    if big:
+        for k in range(1, 5):
+            for t in itertools.product(ALPHA, repeat=k):
+                add("".join(t), "exhaustive")
+    for _ in range(1500 * (4 if big else 1)):
+        add("".join(rng.choice(ALPHA) for _ in range(rng.randint(4, 7))), "random-alphabet")
     return out
 
 
@@ -209,7 +218,7 @@ def nt_parse(c, o):
 def gen_spec(rng, tier, escalate):
     big = tier == "thorough" or escalate
     out = []
-    for _ in range(2500 * (4 if big else 1)):
+    for _ in range(1500 * (4 if big else 1)):
         out.append(_ast(rng))
     # every shape at the numeric boundaries
     for p in ("Ethernet", "Port-channel", "Gi"):
@@ -303,14 +312,14 @@ def run_order(case):
     if a is None or b is None:
         return None
     da, db = a.as_dict(), b.as_dict()
-    h = [a.__hash__(), b.__hash__()] if _small(da) and _small(db) else None
+    h = bool(hash(a) == hash(b)) if _small(da) and _small(db) else None
     return [_tri(lambda: a < b), _tri(lambda: a > b), bool(a == b), h]
 
 
 def lit_order(c, o):
     if o is None:
         return "(%s, %s, None)" % (S(c["a"]), S(c["b"]))
-    h = "None" if o[3] is None else "(Some (%s, %s))" % (common.zlit(o[3][0]), common.zlit(o[3][1]))
+    h = common.optlit(o[3], common.blit)
     return "(%s, %s, Some (%d, %d, %s, %s))" % (S(c["a"]), S(c["b"]), o[0], o[1], common.blit(o[2]), h)
 
 
@@ -433,6 +442,7 @@ def _too_big(text):
 
 
 RALPHA = ["Eth", "1", "3", "/", ",", "-", ".", ":", " ", "m"]
+RALPHA_Q = ["Eth", "1", "3", "/", ",", "-", ".", ":"]
 
 
 def _readers(rng):
@@ -471,10 +481,15 @@ def gen_range(rng, tier, escalate):
             elif t:
                 t[min(i, len(t) - 1)] = rng.choice(",-/.: 1a")
         add("".join(t), "mutant")
-    n = 5 if big else 4
-    for k in range(1, n + 1):
-        for t in itertools.product(RALPHA, repeat=k):
+    for k in range(1, (5 if big else 4) + 1):
+        for t in itertools.product(RALPHA_Q, repeat=k):
             add("".join(t), "exhaustive")
+    if big:
+        for k in range(1, 5):
+            for t in itertools.product(RALPHA, repeat=k):
+                add("".join(t), "exhaustive")
+    for _ in range(1500 * (4 if big else 1)):
+        add("".join(rng.choice(RALPHA) for _ in range(rng.randint(4, 8))), "random-alphabet")
     return out
 
 
@@ -573,9 +588,14 @@ def nt_rspec(c, o):
 def known_rspec(c, o, kf):
     ids = {k["id"] for k in kf}
     b = c["base"]
-    # F28 (= F20): iterated component is a sub-interface / channel and there is a later part; or a '-' in the prefix / class word
-    f28 = (c["k"] > 0 and len(c["items"]) > 1) or "-" in b["prefix"] or (b["cls"] is not None and "-" in b["cls"])
-    if f28 and o is None and "F28" in ids:
+    # F20: iterated component is a sub-interface / channel and there is a later part (every later bare part lacks that component)
+    if c["k"] > 0 and len(c["items"]) > 1 and o is None:
+        if "F20" in ids:
+            return "F20"
+        if "F28" in ids:
+            return "F28"
+    # F28: a '-' in the prefix / class word (the part is split at its first '-')
+    if ("-" in b["prefix"] or (b["cls"] is not None and "-" in b["cls"])) and o is None and "F28" in ids:
         return "F28"
     # F27: the class word holds a digit: it is not recognised as a class word (its digits join the end ordinal)
     if _has_digit(b["cls"]) and "F27" in ids and (o is None or (o[0] != "inconsistent" and not any(x.endswith(" " + b["cls"]) for x in o[0]))):
@@ -601,7 +621,7 @@ STREAMS = [
     Stream("name_spec", gen_spec, run_spec, lit_spec, PRE, "case_spec", "agree_spec", show="model_spec", nontrivial=nt_spec,
            known=known_spec, describe=_d_spec, shard=300, rule="grammar names vs the generator's components (specification)"),
     Stream("order", gen_order, run_order, lit_order, PRE, "case_order", "agree_order", show="model_order", nontrivial=nt_order,
-           shard=300, rule="pairs: <, >, ==, __hash__"),
+           shard=300, rule="pairs: <, >, ==, and a == b => hash(a) == hash(b)"),
     Stream("sorted", gen_sorted, run_sorted, lit_sorted, PRE, "case_sorted", "agree_sorted", show="model_sorted", nontrivial=nt_sorted,
            shard=200, rule="sorted() of same-shape lists (and mixed pairs)"),
     Stream("range", gen_range, run_range, lit_range, PRE, "case_range", "agree_range", show="model_range", nontrivial=nt_range,
